@@ -193,7 +193,7 @@ def u_overlay_register(c):
         c.prove("on/handler-calls-fn-once-with-the-same-payload", st == "ok" and len(got) == 1 and (got[0] is caps if mode == 2 else isinstance(got[0], dict)))
 
 
-@unit("Probe.emit2", ["C06", "C17"], [P + ":Probe._emit2", P + ":Probe._emit"])
+@unit("Probe.emit2", ["C06", "C17", "C01", "C04", "C16"], [P + ":Probe._emit2", P + ":Probe._emit"])
 def u_emit2(c):
     """_emit2 (wrapper probes f(!#enter, !!#exit)): pushes once the values plus a $wrap record naming the accumulator, the main
     capture and whether this is the begin (first focus) or the end (second focus) event; returns ABSENT."""
@@ -541,11 +541,12 @@ def u_find_eval_env(c):
     (locals, then globals, then builtins), unless a frame on the way installs its own resolver, which wins."""
     it = Interp(c)
     n = 1 + c.choose(3, "frames")
-    kinds = [c.choose(3, f"frame{i}") for i in range(n)]  # 0 skipped module (ptera...), 1 user module, 2 module with a resolver
+    kinds = [c.choose(4, f"frame{i}") for i in range(n)]  # 0 skipped module (ptera...), 1 user module, 2 module with a resolver, 3 user module called pteradactyl
     frames = []
     nxt = None
     for i in reversed(range(n)):
-        glb = {"__name__": ["ptera.probe", "usermod", "toolmod"][kinds[i]] + str(i)}
+        # (a module is skipped when it IS one of the named packages or lives inside one: `pteradactyl` is not inside `ptera`)
+        glb = {"__name__": ["ptera.probe" if i % 2 else "ptera", "usermod" + str(i), "toolmod" + str(i), "pteradactyl" if i % 2 else "contextlibrary.sub"][kinds[i]]}
         if kinds[i] == 2:
             glb["__ptera_resolver__"] = SymObj(f"resolver{i}", Val.ref(z3.IntVal(c.new_id())))
         fr = SymObj(f"frame{i}", Val.ref(z3.IntVal(c.new_id())), attrs={"f_globals": glb, "f_locals": {f"local{i}": i}, "f_back": nxt}, closed=True)
@@ -555,7 +556,7 @@ def u_find_eval_env(c):
     chain = frames
     kchain = kinds
     st, r = run(it, it.get_global(S, "_find_eval_env"), ["sel", chain[0], ["ptera", "contextlib"]])
-    first = next((j for j, k in enumerate(kchain) if k != 0), None)
+    first = next((j for j, k in enumerate(kchain) if k != 0), None)  # (kind 3 is a user module)
     if first is None:
         c.prove("only-skipped-frames/unreachable-outside-ptera", st == "raise" and isinstance(r, AssertionError))
         return
@@ -569,7 +570,7 @@ def u_find_eval_env(c):
                 and len(r.fields["dicts"]) == 3, note=repr(r))
 
 
-@unit("select-environment", ["C10", "C13", "C12"], [S + ":select"])
+@unit("select-environment", ["C10", "C13", "C12", "C18"], [S + ":select"])
 def u_select_environment(c):
     """select(s, env=E): when the caller gives an environment -- ANY mapping, the empty one included -- the symbols of the selector are
     resolved in it and nowhere else (a function the environment does not define is refused even when the caller's scope has it); the
